@@ -65,6 +65,8 @@ def run(ctx: Ctx, rep: Report) -> None:
     qasm_grammar.hygiene(ctx, rep)
     qasm_grammar.listwalk(ctx, rep)
     qasm_grammar.eqqasm(ctx, rep)
+    qasm_grammar.unwrap(ctx, rep)
+    qasm_grammar.gate_ident(ctx, rep)
     # formal parameters of a written `gate` body (shared with C06)
     from .C06 import qasm_def_cursor
     rep.floor('CURSOR', qasm_def_cursor(ctx, rep), 1,
